@@ -57,7 +57,7 @@ NEG_RESIDUE = 1e-12      # an in-image weight below -1e-12 is not a rounding res
 def plan(tier):
     if tier == 'thorough':
         return dict(shards=16, cases=9000, timeout=1800, budget_s=560)
-    return dict(shards=8, cases=800, timeout=600, budget_s=70)
+    return dict(shards=8, cases=650, timeout=600, budget_s=70)
 
 
 def selftest():
@@ -216,7 +216,7 @@ def _oracle(ap, data, error, mask, method, subpixels):
         partial = overlap and (box[0] < 0 or box[2] < 0 or box[1] > nx or box[3] > ny)
         out.append(dict(mdata=mdata, box=box, W=W, inbox=inbox, overlap=overlap, sum=s, scale=scale, err=e,
                         area=a, S=S, partial=bool(partial), ngood=int(S.sum()),
-                        negw=bool((W < -NEG_RESIDUE).any())))
+                        negw=bool((W < -NEG_RESIDUE).any() or np.isnan(W).any())))      # negative or NaN weight: a C01 mask defect
     return out
 
 
@@ -838,7 +838,7 @@ def _mask_methods(case, rng, ap, data, mask, ora, kw, base):
                 if gm is not None:
                     case.close(np.asarray(gm, float), em, 'multiply_vs_index_arithmetic', mech=mech)
         # the mask object handed out must still hold the weights it was created with
-        case.check(np.array_equal(np.asarray(m.data), o['mdata']), 'mask_data_unchanged_by_methods', mech)
+        case.check(core.exact(np.asarray(m.data), o['mdata']), 'mask_data_unchanged_by_methods', mech)
 
 
 # ----------------------------------------------------------------------
